@@ -303,7 +303,7 @@ func runC05(p *core.Prog, r *core.Report) {
 		for i, s := range scheds {
 			unit := s.(ssa.CallInstruction).Common().Args[1]
 			ok := false
-			core.Instrs(fn, func(in ssa.Instruction) {
+			core.InstrsDeep(fn, func(in ssa.Instruction) { // the test sits where the scheduling call is: NextJob or its helper
 				ifi, isIf := in.(*ssa.If)
 				if !isIf {
 					return
